@@ -49,7 +49,7 @@ Definition model_run (i : input) : observation :=
 
 Definition in_domain (i : input) : bool :=
   match i_doc i with
-  | IDef d _ _ _ _ _ _ => wf_dev (urljoin_of i) (fparse_of i) lext (i_base i) d
+  | IDef d _ _ _ _ _ _ => wf_desc (urljoin_of i) (fparse_of i) lext (i_base i) d
   | IRaw _ _ => false
   end.
 
